@@ -69,7 +69,7 @@ func genOpts(r *rand.Rand) *neat.Options {
 		o.MutdiffCoeff = 0.4
 	}
 	o.CompatThreshold = pick(r, 0.05, 0.3, 1.0, 3.0, 6.0, 1e6)
-	o.AgeSignificance = 1 + r.Float64()*pick(r, 0.0, 1.0, 2.0)
+	o.AgeSignificance = 1 + r.Float64()*pick(r, 0.0, 1.0, 2.0, -0.75) // (below one: the young are held back instead of boosted)
 	o.SurvivalThresh = pick(r, 0.01, 0.1, 0.2, 0.5, 0.9, 1.0, r.Float64()*0.99+0.01)
 	o.MutateOnlyProb = r.Float64()
 	o.MutateRandomTraitProb = r.Float64() * 0.5
@@ -418,6 +418,27 @@ func buildGenome(r *rand.Rand, sp genomeSpec, id int) *genetics.Genome {
 
 // startGenome returns a start genome of one of the generator classes: shipped file, hand-built, randomly constructed
 func startGenome(r *rand.Rand, o *neat.Options) (*genetics.Genome, string) {
+	g, src := startGenomePlain(r, o)
+	if r.Intn(6) == 0 {
+		// a start genome that carries weights of a trained network (tens to hundreds) instead of the zeros / small values of a
+		// blank one: the copies a population is spawned from it then differ by much more than the mutation power
+		f := pick(r, 5.0, 20.0, 100.0)
+		for _, gn := range g.Genes {
+			mirrored := gn.MutationNum == gn.Link.ConnectionWeight
+			if gn.Link.ConnectionWeight == 0 {
+				gn.Link.ConnectionWeight = r.NormFloat64()
+			}
+			gn.Link.ConnectionWeight = math.Round(gn.Link.ConnectionWeight*f*1000)/1000 + 0
+			if mirrored {
+				gn.MutationNum = gn.Link.ConnectionWeight
+			}
+		}
+		src += "+heavy-weights"
+	}
+	return g, src
+}
+
+func startGenomePlain(r *rand.Rand, o *neat.Options) (*genetics.Genome, string) {
 	switch r.Intn(10) {
 	case 0, 1, 2:
 		name := shippedGenomes[r.Intn(len(shippedGenomes))]
